@@ -2,6 +2,7 @@ package dbworld
 
 import (
 	"fmt"
+	"sort"
 	"time"
 
 	"github.com/cilium/statedb"
@@ -21,6 +22,9 @@ type IterCtx struct {
 	closed    bool
 	closing   bool
 	owned     bool
+
+	preDeleted  []string // objects the creating transaction had deleted before it called Changes()
+	creatorNext bool     // Next was called through the creating transaction
 
 	view      map[string]MObj     // replay of everything delivered so far
 	delSeen   map[string][]uint64 // delivered deletions per primary key
@@ -53,12 +57,63 @@ func (w *World) createIterator(t *simcore.Task, wt *WTxn, ti int) bool {
 		return false
 	}
 	ic := &IterCtx{id: len(w.iters) + len(wt.newIters) + wt.id*100, it: it, ti: ti, createRev: st.Rev, view: map[string]MObj{}, delSeen: map[string][]uint64{}, refIdx: wt.base[ti].Idx, lastIdx: wt.base[ti].Idx}
+	for id := range wt.base[ti].Objs {
+		if _, still := st.Objs[id]; !still {
+			ic.preDeleted = append(ic.preDeleted, id)
+		}
+	}
+	sort.Strings(ic.preDeleted)
 	st.Trackers++
 	wt.newIters = append(wt.newIters, ic)
 	w.allIters = append(w.allIters, ic)
 	w.S.Logf("T%d Changes(%s) -> iterator I%d at revision %d", wt.id, tc.M.Name, ic.id, st.Rev)
 	w.probe("iterator-created")
+	if (w.prop == "C07" || w.prop == "C08") && w.C.Choose(3) == 0 {
+		// Next through the creating transaction itself: it holds the table, so only what was committed
+		// before it is observed
+		ic.creatorNext = true
+		w.probe("next-with-creating-writetxn")
+		if len(ic.preDeleted) > 0 {
+			w.probe("next-with-creating-writetxn-after-own-deletes")
+		}
+		if _, ok := w.nextOn(ic, wt.txn, wt.base[ti], w.C.Choose(3), fmt.Sprintf("the creating WriteTxn T%d", wt.id)); !ok {
+			return false
+		}
+	}
 	return true
+}
+
+// creatorResidue tells whether the only difference between what the iterator delivered and st are objects
+// that the creating transaction had deleted before it called Changes() and that were then delivered by
+// Next(creating transaction): the circumstance of the known finding recorded for C07.
+func (w *World) creatorResidue(ic *IterCtx, st *TableState) string {
+	if !ic.creatorNext || len(ic.preDeleted) == 0 {
+		return ""
+	}
+	pre := map[string]bool{}
+	for _, id := range ic.preDeleted {
+		pre[id] = true
+	}
+	extra := 0
+	for id, v := range ic.view {
+		mo, ok := st.Objs[id]
+		switch {
+		case ok && mo.Rev == v.Rev:
+		case !ok && pre[id]:
+			extra++
+		default:
+			return ""
+		}
+	}
+	for id := range st.Objs {
+		if _, ok := ic.view[id]; !ok {
+			return ""
+		}
+	}
+	if extra == 0 {
+		return ""
+	}
+	return " [residue: objects the creating transaction deleted before Changes() and Next(creating transaction) delivered]"
 }
 
 // nextOn calls Next with the given transaction, consumes up to 'limit'
@@ -158,8 +213,8 @@ func (w *World) nextOn(ic *IterCtx, txn statedb.ReadTxn, X *TableState, limit in
 		// The channel is the one of the last refresh. Everything up to that snapshot was delivered...
 		ref := tc.M.Chain[ic.refIdx]
 		if !w.viewEquals(ic, ref) {
-			w.violate("C07", "open-channel-behind", "I%d Next(%s) returned an open watch channel but what was delivered so far (%s) differs from the snapshot of its last refresh (table version %d: %s): the consumer would wait without ever receiving the difference",
-				ic.id, what, fmtView(ic.view), ref.Idx, fmtRes(evalAll(ref)))
+			w.violate("C07", "open-channel-behind", "I%d Next(%s) returned an open watch channel but what was delivered so far (%s) differs from the snapshot of its last refresh (table version %d: %s): the consumer would wait without ever receiving the difference%s",
+				ic.id, what, fmtView(ic.view), ref.Idx, fmtRes(evalAll(ref)), w.creatorResidue(ic, ref))
 			return nil, false
 		}
 		// ... and no commit that changed the table has been published and notified since: otherwise
@@ -181,8 +236,8 @@ func (w *World) nextOn(ic *IterCtx, txn statedb.ReadTxn, X *TableState, limit in
 	if full {
 		// (b) convergence
 		if !w.viewEquals(ic, X) {
-			w.violate("C07", "convergence", "I%d after fully consuming Next(%s): replay of delivered changes is %s, the snapshot (table version %d) has %s",
-				ic.id, what, fmtView(ic.view), X.Idx, fmtRes(evalAll(X)))
+			w.violate("C07", "convergence", "I%d after fully consuming Next(%s): replay of delivered changes is %s, the snapshot (table version %d) has %s%s",
+				ic.id, what, fmtView(ic.view), X.Idx, fmtRes(evalAll(X)), w.creatorResidue(ic, X))
 			return nil, false
 		}
 		// (c) every deletion committed after creation has been delivered
